@@ -256,9 +256,20 @@ def main():
 
 def run(pid, spec, prop_index, pkg, pkgdir, tier, replay, verif_seed, scratch, t_start):
     shutil.rmtree(os.path.join(pkgdir, "testdata", "rapid"), ignore_errors=True)
+    seed_override = None
     if replay:
         jobs = [{"name": "replay", "run": "^TestReplay$", "kind": "plain", "shards": 1,
                  "env": {"VERIF_REPLAY": replay}, "race": bool(spec.get("replay_race"))}]
+        try:
+            with open(replay) as f:
+                rf = json.load(f)
+        except (OSError, ValueError):
+            rf = {}
+        if rf.get("sub") == "race":
+            # a data race is replayed by re-running the race job that reported it, with its seed
+            want = (rf.get("case") or {}).get("job", "").rsplit("-", 1)[0]
+            jobs = [dict(j, shards=1) for j in spec["thorough" if tier == "thorough" else "quick"] if j.get("race") and (j["name"] == want or not want)]
+            seed_override = (rf.get("case") or {}).get("seed")
     else:
         jobs = [dict(j) for j in spec[tier]]
         jobs.append({"name": "known", "run": "^TestKnown$", "kind": "plain", "shards": 1})
@@ -288,6 +299,8 @@ def run(pid, spec, prop_index, pkg, pkgdir, tier, replay, verif_seed, scratch, t
             n = job.get("shards", 1)
             for sh in range(n):
                 seed = seed_for(verif_seed, prop_index, ji, sh)
+                if seed_override:
+                    seed = int(seed_override)
                 futs.append(ex.submit(run_job, bin_race if job.get("race") else bin_plain, pkgdir, job, sh, n, seed,
                                       tier, scratch, None))
         for f in futs:
